@@ -40,7 +40,7 @@ func (g *Gen) begin(note string) {
 	g.id++
 	g.cur = &Scenario{ID: g.id, Prop: g.prop, Note: note}
 	g.x = g.out.execs[g.id%len(g.out.execs)]
-	g.x.frames, g.x.birth, g.x.groupers, g.x.gbirth = nil, nil, nil, nil
+	g.x.frames, g.x.birth, g.x.groupers, g.x.gbirth, g.x.views = nil, nil, nil, nil, nil
 	g.x.scn = g.id
 	g.x.viaSlice = false
 }
